@@ -43,9 +43,10 @@ type (
 		Args []Expr
 	}
 	EQuant struct {
-		Forall bool
-		Vars   []Binder
-		Body   Expr
+		Forall   bool
+		Vars     []Binder
+		Body     Expr
+		Triggers [][]Expr // optional explicit patterns: forall i int {s[i]} {t[i], u[i]} :: body
 	}
 )
 
@@ -74,6 +75,8 @@ type Contract struct {
 	File       string
 	Requires   []*Clause
 	Ensures    []*Clause
+	After      map[string][]*Clause // callee key -> intermediate assertions proved right after each call of it, then assumed
+	Preserves  []*Clause // callback invariants: required and ensured by the function; carried across a callee that invokes it (frame_of_param)
 	Assigns    []string // raw designators; nil = not declared
 	HasAssigns bool
 	Loops      map[int]*LoopSpec
@@ -148,7 +151,7 @@ func NewSpecSet() *SpecSet {
 	return &SpecSet{Contracts: map[string]*Contract{}, Ghosts: map[string]*GhostDecl{}, Defines: map[string]*DefineDecl{}, FieldAnn: map[string]map[string]string{}}
 }
 
-var clauseKeywords = map[string]bool{"func": true, "requires": true, "ensures": true, "assigns": true, "loop": true,
+var clauseKeywords = map[string]bool{"func": true, "after": true, "preserves": true, "requires": true, "ensures": true, "assigns": true, "loop": true,
 	"ghost": true, "pure": true, "define": true, "axiom": true, "package": true, "flag": true, "param": true, "let": true,
 	"field": true, "latch": true, "extern": true, "sets": true, "counter": true}
 
@@ -205,6 +208,35 @@ func (ss *SpecSet) LoadSpecFile(path string, pkgPrefix string) error {
 			}
 			cur = &Contract{Key: key, File: where, Loops: map[int]*LoopSpec{}, Flags: map[string]string{}, ParamSpecs: map[string]string{}}
 			ss.Contracts[key] = cur
+		case "after":
+			// after <callee key> assert <label>: <expr>
+			if cur == nil {
+				return fail(fmt.Errorf("clause outside func"))
+			}
+			i := strings.Index(rest, " assert ")
+			if i < 0 {
+				return fail(fmt.Errorf("after <callee> assert <clause>"))
+			}
+			c, err := parseClause(rest[i+len(" assert "):], where)
+			if err != nil {
+				return fail(err)
+			}
+			if cur.After == nil {
+				cur.After = map[string][]*Clause{}
+			}
+			k := strings.TrimSpace(rest[:i])
+			cur.After[k] = append(cur.After[k], c)
+		case "preserves":
+			if cur == nil {
+				return fail(fmt.Errorf("clause outside func"))
+			}
+			c, err := parseClause(rest, where)
+			if err != nil {
+				return fail(err)
+			}
+			cur.Preserves = append(cur.Preserves, c)
+			cur.Requires = append(cur.Requires, c)
+			cur.Ensures = append(cur.Ensures, &Clause{Name: "preserved-" + c.Name, Text: c.Text, E: c.E, Line: c.Line})
 		case "requires", "ensures":
 			if cur == nil {
 				return fail(fmt.Errorf("clause outside func"))
@@ -819,9 +851,21 @@ func (p *parser) primary() Expr {
 					break
 				}
 			}
+			var trigs [][]Expr
+			for p.accept("{") {
+				var tr []Expr
+				for {
+					tr = append(tr, p.iff())
+					if !p.accept(",") {
+						break
+					}
+				}
+				p.expect("}")
+				trigs = append(trigs, tr)
+			}
 			p.expect("::")
 			body := p.iff()
-			return &EQuant{t.text == "forall", bs, body}
+			return &EQuant{t.text == "forall", bs, body, trigs}
 		}
 		if p.isOp("(") {
 			p.next()
@@ -857,7 +901,7 @@ func (p *parser) typeText() string {
 		if t.kind == "eof" {
 			break
 		}
-		if t.kind == "op" && depth == 0 && (t.text == "," || t.text == "::") {
+		if t.kind == "op" && depth == 0 && (t.text == "," || t.text == "::" || t.text == "{") {
 			break
 		}
 		if t.kind == "op" && t.text == "[" {
